@@ -40,6 +40,15 @@ NAMED = [
     'let v3 = {a = 1} == {b = 2}; let v4 = {a = 1, b = 2} != {a = 1, c = 3}; let v5 = [1, 2] == ["a"]; let v6 = {n = {x = 1}} == {n = {y = 1}};',
     'let v = [1, "a"] == [1.5]; let w = {a = [1]} != {a = ["x"]}; let x = [] == [1]; let y = {} == {a = 1};',
 ]
+# selectors through the elements of a list literal whose elements have different shapes (one a sub-shape of the other), followed by a
+# selection that only the wider element supports: every order, directly / under a field / under a nested list
+for _A, _B, _acc in [("{x = 1}", '{x = 1, y = "s"}', ".y"), ("{}", '{a = "v"}', ".a"), ("[1]", '[1, "s"]', ".1"),
+                     ("{n = {}}", '{n = {z = "q"}}', ".n.z")]:
+    for _first, _second, _ib in ((_A, _B, 1), (_B, _A, 0)):
+        NAMED.append('let l = [%s, %s]; let r = (l.%d)%s + "x";' % (_first, _second, _ib, _acc))
+        NAMED.append('let l = [{p = %s}, {p = %s}]; let r = l.%d.p%s + "x";' % (_first, _second, _ib, _acc))
+        NAMED.append('let l = [[%s], [%s]]; let r = ((l.%d).0)%s + "x";' % (_first, _second, _ib, _acc))
+        NAMED.append('let l = [{p = %s}, {p = %s}, {p = %s}]; let r = l.%d.p%s + "x";' % (_first, _first, _second, 2 if _ib == 1 else 0, _acc))
 KNOWN_WITNESSES = {
     "C07-list-shapes": ['let r = [1] + ["a"];', 'let r = filter(func(x) => false, [1]) + filter(func(x) => false, ["a"]);'],
     "C07-and-or-rhs": ["let x = true && 5;", 'let x = false || "s";', "let n = false && (not 5);"],
